@@ -11,7 +11,7 @@ import re
 from .. import boot, canon, pool, corpus
 
 ID = 'C01'
-BUDGET = {'quick': 240, 'thorough': 2400}
+BUDGET = {'quick': 420, 'thorough': 3000}
 
 SIGMA21 = ['a', '.', '(', ')', '=', '\n', ' ', 'def ', ':', 'import ', ',', '[', ']', '*', "'",
            'class ', 'lambda ', 'for ', 'in ', '@', '1']
